@@ -225,6 +225,12 @@ def DB.count [NumOps α] (db : DB α) (c : String) (v : α) : Except Err Nat :=
   | none => .error .keyError
   | some j => .ok ((db.t.column j).countP fun x => Num.eq x v)
 
+/-- `count(c, v)` for each value of a list (one request of the driver) -/
+def DB.counts [NumOps α] (db : DB α) (c : String) (vs : List α) : Except Err (List Nat) :=
+  match colIdx db.t.cols c with
+  | none => .error .keyError
+  | some j => .ok (vs.map fun v => (db.t.column j).countP fun x => Num.eq x v)
+
 /-! ## operation sequences -/
 
 inductive Op (α : Type) where
